@@ -54,7 +54,11 @@ RULE = (
     "and local data and the same counter increments; after mutating one object (defaults in place and re-bound, local data, "
     "Jacobian and differentiated names, counters, cache.clear(), a new execution) the other must expose the same state and "
     "(history-free recipes) recompute the recorded values; a restored HDF5Cache must point to the same file / node and see the "
-    "entries.  Further drives: 18 MDOFunction kinds incl. ProblemFunction of a preprocessed problem (attributes, n_calls, "
+    "entries (the HDF5Cache gets a name of its own in half of the cases).  In 2/3 of the cases a second generation follows: "
+    "the restored object is mutated again (1-3 of the same mutations plus deletion of a default), serialised again "
+    "(dumps or file) and restored; the second generation must expose the state of the object it was made from and compute "
+    "the same values / counters at the generated points; functions, spaces, problems and scenarios are likewise serialised "
+    "a second time after use.  Further drives: 18 MDOFunction kinds incl. ProblemFunction of a preprocessed problem (attributes, n_calls, "
     "travelling database, evaluate / jac, independence); DesignSpace / ParameterSpace (views, ==, normalisation / projection / "
     "cdf maps, OT sampling, independence); OptimizationProblem fresh / evaluated / after a driver (views incl. database, "
     "solution, counters; evaluate_functions; SLSQP / COBYLA / LHS / Halton run on both: equal results and databases; "
@@ -1120,6 +1124,15 @@ def _function_body(p, ctx, tmp):
     if db_u is not None:
         d = diff(db_u, database_view(untouched._database))
         ctx.check(d is None, "function_independence", f"evaluating one ProblemFunction changed the database of the other: {d}")
+    # second generation: the restored (possibly modified) function is serialised again
+    view1 = function_view(restored, stats)
+    gen2 = roundtrip(restored, "dumps", p["protocol"], tmp, ctx)
+    d = diff(view1, function_view(gen2, stats))
+    ctx.check(d is None, "second_generation_state", f"function restored, used, serialised again and restored differs: {d}")
+    x2 = _xs(n, [0.31, -0.47, 0.59])
+    r1, r2 = _call(lambda: plain(restored.evaluate(x2.copy()))), _call(lambda: plain(gen2.evaluate(x2.copy())))
+    ctx.check(r1[0] == r2[0] and (r1[0] == "raises" or diff(r1[1], r2[1]) is None), "second_generation_behaviour",
+              f"evaluate differs between a restored function and its own restored copy: {r1} vs {r2}"[:400])
     if n_eval >= 1:
         ctx.nontriv(("function", p))
         ctx.cls("nontrivial")
@@ -1249,6 +1262,11 @@ def _space_body(p, ctx, tmp):
     ctx.check(d is None, "space_independence", f"changing one space changed the other: {d}")
     d = diff(maps, _space_maps(untouched, p["u"], p["seed"]))
     ctx.check(d is None, "space_independence", f"changing one space changed the maps of the other: {d}")
+    # second generation: the restored (possibly modified) space is serialised again
+    view1, maps1 = space_view(restored), _space_maps(restored, p["u"], p["seed"])
+    gen2 = roundtrip(restored, "dumps", p["protocol"], tmp, ctx)
+    d = diff(view1, space_view(gen2)) or diff(maps1, _space_maps(gen2, p["u"], p["seed"]))
+    ctx.check(d is None and gen2 == restored, "second_generation_state", f"space restored, modified, serialised again and restored differs: {d}")
     if p["used"] and space.has_current_value:
         ctx.nontriv(("space", p))
         ctx.cls("nontrivial")
@@ -1410,6 +1428,11 @@ def _problem_body(p, ctx, tmp):
         ctx.cls(f"original_raises:{settings['algo_name']}:{r1[1]}")
     d = diff(problem_view(problem, stats), problem_view(restored, stats))
     ctx.check(d is None, "driver_result", f"after {settings['algo_name']} the two problems (database, solution, counters) differ: {d}")
+    # second generation: the restored problem, evaluated and solved meanwhile, is serialised again
+    view1 = problem_view(restored, stats)
+    gen2 = roundtrip(restored, "dumps", p["protocol"], tmp, ctx)
+    d = diff(view1, problem_view(gen2, stats))
+    ctx.check(d is None, "second_generation_state", f"problem restored, used, serialised again and restored differs: {d}")
     if p["life"] == "solved":
         ctx.nontriv(("problem", p))
         ctx.cls("nontrivial")
@@ -1504,6 +1527,10 @@ def _scenario_body(p, ctx, tmp):
         d = diff(scenario_view(scenario, stats), scenario_view(restored, stats))
         ctx.check(d is None, "scenario_result", f"after {post['algo_name']} original and restored scenario (result, database, disciplines) differ: {d}")
         ctx.cls(f"post_run:{post['algo_name']}" if r1[0] == "ok" else f"original_raises:{post['algo_name']}:{r1[1]}")
+    view1 = scenario_view(restored, stats)
+    gen2 = roundtrip(restored, "dumps", p["protocol"], tmp, ctx)
+    d = diff(view1, scenario_view(gen2, stats))
+    ctx.check(d is None, "second_generation_state", f"scenario restored, run, serialised again and restored differs: {d}")
     if p["runs"]:
         ctx.nontriv(("scenario", p))
         ctx.cls("nontrivial")
